@@ -1,1 +1,262 @@
-//! (module owned by its property check; see HARNESS_GUIDE.md)
+//! Reference civil-date arithmetic and reference PDF date formatting for C18 (DESIGN §4 C18).
+//!
+//! Written from scratch with integer arithmetic on the proleptic Gregorian calendar; nothing in
+//! this module calls chrono, jiff or time. Instants are whole seconds since 1970-01-01T00:00:00Z,
+//! offsets are whole minutes east of UTC.
+//!
+//! Reference formatting (ISO 32000-1 §7.9.4, with the trailing apostrophe every lopdf writer emits):
+//!   offset form  `D:YYYYMMDDHHmmSS+HH'mm'`   (sign `+` for offsets >= 0, `-` otherwise, also for -00'30')
+//!   Z form       `D:YYYYMMDDHHmmSSZ`
+
+pub const SECS_PER_DAY: i64 = 86_400;
+/// Number of days from 0001-01-01 to 1970-01-01.
+const DAYS_0001_TO_1970: i64 = 719_162;
+const DAYS_PER_400Y: i64 = 146_097;
+const DAYS_PER_100Y: i64 = 36_524;
+const DAYS_PER_4Y: i64 = 1_461;
+
+#[derive(Debug, Clone, Copy, PartialEq, Eq)]
+pub struct Civil {
+    pub year: i64,
+    pub month: i64,
+    pub day: i64,
+    pub hour: i64,
+    pub minute: i64,
+    pub second: i64,
+}
+
+pub fn is_leap(y: i64) -> bool {
+    (y.rem_euclid(4) == 0 && y.rem_euclid(100) != 0) || y.rem_euclid(400) == 0
+}
+
+pub fn days_in_month(y: i64, m: i64) -> i64 {
+    match m {
+        1 | 3 | 5 | 7 | 8 | 10 | 12 => 31,
+        4 | 6 | 9 | 11 => 30,
+        2 => {
+            if is_leap(y) {
+                29
+            } else {
+                28
+            }
+        }
+        _ => panic!("month out of range: {}", m),
+    }
+}
+
+/// Days from 1970-01-01 to the proleptic Gregorian date y-m-d (negative before 1970).
+pub fn days_from_civil(y: i64, m: i64, d: i64) -> i64 {
+    // whole years before y, counted from year 1 (floor division keeps year <= 0 correct)
+    let p = y - 1;
+    let mut days = 365 * p + p.div_euclid(4) - p.div_euclid(100) + p.div_euclid(400);
+    for mm in 1..m {
+        days += days_in_month(y, mm);
+    }
+    days + (d - 1) - DAYS_0001_TO_1970
+}
+
+/// Inverse of `days_from_civil`.
+pub fn civil_from_days(z: i64) -> (i64, i64, i64) {
+    let n = z + DAYS_0001_TO_1970; // days since 0001-01-01
+    let c400 = n.div_euclid(DAYS_PER_400Y);
+    let mut r = n.rem_euclid(DAYS_PER_400Y);
+    // the last day of a 400-year cycle belongs to the fourth century of the cycle
+    let c100 = (r / DAYS_PER_100Y).min(3);
+    r -= c100 * DAYS_PER_100Y;
+    let c4 = r / DAYS_PER_4Y; // at most 24
+    r -= c4 * DAYS_PER_4Y;
+    // the last day of a 4-year cycle belongs to its fourth year
+    let c1 = (r / 365).min(3);
+    r -= c1 * 365;
+    let year = 1 + 400 * c400 + 100 * c100 + 4 * c4 + c1;
+    let mut month = 1;
+    loop {
+        let dm = days_in_month(year, month);
+        if r < dm {
+            break;
+        }
+        r -= dm;
+        month += 1;
+    }
+    (year, month, r + 1)
+}
+
+/// The civil date-time in UTC of an instant.
+pub fn civil_from_epoch(secs: i64) -> Civil {
+    let days = secs.div_euclid(SECS_PER_DAY);
+    let sod = secs.rem_euclid(SECS_PER_DAY);
+    let (year, month, day) = civil_from_days(days);
+    Civil { year, month, day, hour: sod / 3600, minute: sod % 3600 / 60, second: sod % 60 }
+}
+
+/// The instant at which UTC shows the civil date-time `c`.
+pub fn epoch_from_civil(c: &Civil) -> i64 {
+    days_from_civil(c.year, c.month, c.day) * SECS_PER_DAY + c.hour * 3600 + c.minute * 60 + c.second
+}
+
+pub fn ymdhms(year: i64, month: i64, day: i64, hour: i64, minute: i64, second: i64) -> i64 {
+    epoch_from_civil(&Civil { year, month, day, hour, minute, second })
+}
+
+/// Local civil date-time shown at `instant` by a clock `offset_min` minutes east of UTC.
+pub fn local_civil(instant: i64, offset_min: i32) -> Civil {
+    civil_from_epoch(instant + offset_min as i64 * 60)
+}
+
+/// C18 domain: the local civil year lies in 0001..=9999.
+pub fn in_domain(instant: i64, offset_min: i32) -> bool {
+    let y = local_civil(instant, offset_min).year;
+    (1..=9999).contains(&y)
+}
+
+fn push_num(out: &mut String, v: i64, width: usize) {
+    let s = v.to_string();
+    for _ in s.len()..width {
+        out.push('0');
+    }
+    out.push_str(&s);
+}
+
+/// `+HH'mm'` / `-HH'mm'` (with `trailing` = false: `+HH'mm`, the spelling of ISO 32000-1).
+pub fn offset_suffix(offset_min: i32, trailing: bool) -> String {
+    let mut out = String::new();
+    out.push(if offset_min < 0 { '-' } else { '+' });
+    let a = (offset_min as i64).abs();
+    push_num(&mut out, a / 60, 2);
+    out.push('\'');
+    push_num(&mut out, a % 60, 2);
+    if trailing {
+        out.push('\'');
+    }
+    out
+}
+
+/// Digits of a civil date-time cut after `fields` fields (1 = YYYY .. 6 = YYYYMMDDHHmmSS).
+pub fn digits(c: &Civil, fields: usize) -> String {
+    let mut out = String::new();
+    push_num(&mut out, c.year, 4);
+    for (i, v) in [c.month, c.day, c.hour, c.minute, c.second].iter().enumerate() {
+        if i + 2 <= fields {
+            push_num(&mut out, *v, 2);
+        }
+    }
+    out
+}
+
+/// Reference offset form `D:YYYYMMDDHHmmSS+HH'mm'`; None outside the domain.
+pub fn format_offset_form(instant: i64, offset_min: i32) -> Option<String> {
+    if !in_domain(instant, offset_min) || offset_min.abs() >= 24 * 60 {
+        return None;
+    }
+    let c = local_civil(instant, offset_min);
+    Some(format!("D:{}{}", digits(&c, 6), offset_suffix(offset_min, true)))
+}
+
+/// Reference Z form `D:YYYYMMDDHHmmSSZ`; None outside the domain.
+pub fn format_z_form(instant: i64) -> Option<String> {
+    if !in_domain(instant, 0) {
+        return None;
+    }
+    Some(format!("D:{}Z", digits(&civil_from_epoch(instant), 6)))
+}
+
+/// ISO-8601 rendering for evidence and messages (not part of any oracle).
+pub fn iso(instant: i64, offset_min: i32) -> String {
+    let c = local_civil(instant, offset_min);
+    let a = offset_min.abs();
+    format!(
+        "{:04}-{:02}-{:02}T{:02}:{:02}:{:02}{}{:02}:{:02}",
+        c.year,
+        c.month,
+        c.day,
+        c.hour,
+        c.minute,
+        c.second,
+        if offset_min < 0 { '-' } else { '+' },
+        a / 60,
+        a % 60
+    )
+}
+
+/// POSIX `TZ` value for a fixed zone `offset_min` minutes east of UTC. POSIX counts the offset
+/// westwards, so the sign is inverted: +05:30 is spelled `XXX-05:30`.
+pub fn posix_tz(offset_min: i32) -> String {
+    let a = offset_min.abs();
+    format!("XXX{}{:02}:{:02}", if offset_min > 0 { '-' } else { '+' }, a / 60, a % 60)
+}
+
+/// Self-check of the reference against facts that do not come from this module: published
+/// anchor values, the 400-year period, day-by-day succession over years 0000..=10000.
+/// Returns a description of the first discrepancy.
+pub fn self_check() -> Result<u64, String> {
+    let anchors: [((i64, i64, i64, i64, i64, i64), i64); 8] = [
+        ((1970, 1, 1, 0, 0, 0), 0),
+        ((2023, 11, 14, 22, 13, 20), 1_700_000_000),
+        ((2001, 9, 9, 1, 46, 40), 1_000_000_000),
+        ((2038, 1, 19, 3, 14, 7), 2_147_483_647),
+        ((1901, 12, 13, 20, 45, 52), -2_147_483_648),
+        ((2000, 3, 1, 0, 0, 0), 951_868_800),
+        ((1, 1, 1, 0, 0, 0), -62_135_596_800),
+        ((9999, 12, 31, 23, 59, 59), 253_402_300_799),
+    ];
+    for ((y, mo, d, h, mi, s), e) in anchors {
+        let got = ymdhms(y, mo, d, h, mi, s);
+        if got != e {
+            return Err(format!("anchor {}-{}-{} {}:{}:{} gives {} not {}", y, mo, d, h, mi, s, got, e));
+        }
+        let c = civil_from_epoch(e);
+        if (c.year, c.month, c.day, c.hour, c.minute, c.second) != (y, mo, d, h, mi, s) {
+            return Err(format!("civil_from_epoch({}) = {:?}", e, c));
+        }
+    }
+    // succession: walk every day of years 0000..=10000 with an independent year/month/day counter
+    let (mut y, mut m, mut d) = (0i64, 1i64, 1i64);
+    let mut z = days_from_civil(0, 1, 1);
+    let mut n = 0u64;
+    while y <= 10000 {
+        if civil_from_days(z) != (y, m, d) {
+            return Err(format!("civil_from_days({}) = {:?}, counter says {}-{}-{}", z, civil_from_days(z), y, m, d));
+        }
+        if days_from_civil(y, m, d) != z {
+            return Err(format!("days_from_civil({}-{}-{}) = {}, counter says {}", y, m, d, days_from_civil(y, m, d), z));
+        }
+        d += 1;
+        if d > days_in_month(y, m) {
+            d = 1;
+            m += 1;
+            if m > 12 {
+                m = 1;
+                y += 1;
+            }
+        }
+        z += 1;
+        n += 1;
+    }
+    if days_from_civil(2400, 1, 1) - days_from_civil(2000, 1, 1) != DAYS_PER_400Y {
+        return Err("400-year period".into());
+    }
+    if format_offset_form(1_700_000_000, 330).as_deref() != Some("D:20231115034320+05'30'") {
+        return Err(format!("format +05:30: {:?}", format_offset_form(1_700_000_000, 330)));
+    }
+    if format_offset_form(0, -30).as_deref() != Some("D:19691231233000-00'30'") {
+        return Err(format!("format -00:30: {:?}", format_offset_form(0, -30)));
+    }
+    if format_z_form(-62_135_596_800).as_deref() != Some("D:00010101000000Z") {
+        return Err(format!("format Z: {:?}", format_z_form(-62_135_596_800)));
+    }
+    if format_offset_form(-62_135_596_800, -1).is_some() || format_offset_form(253_402_300_799, 1).is_some() {
+        return Err("domain bound".into());
+    }
+    if posix_tz(330) != "XXX-05:30" || posix_tz(-30) != "XXX+00:30" || posix_tz(0) != "XXX+00:00" {
+        return Err("posix_tz".into());
+    }
+    Ok(n)
+}
+
+#[cfg(test)]
+mod tests {
+    #[test]
+    fn reference_self_check() {
+        assert!(super::self_check().is_ok(), "{:?}", super::self_check());
+    }
+}
